@@ -40,6 +40,9 @@ def SegFacet.new (p1 p2 prev next : Nat) (pts : Array (V2 K)) : SegFacet K :=
 def SegFacet.canBeSeenBy (f : SegFacet K) (eps100 : K) (i : Nat) (pts : Array (V2 K)) : Bool :=
   decide (eps100 < ((ptAt pts i).sub (ptAt pts f.p0)).dot f.normal)
 
+/-- `visible_points.push(v)` -/
+def SegFacet.pushVis (f : SegFacet K) (v : Nat) : SegFacet K := { f with visible := f.visible ++ [v] }
+
 /-- the `while i != undecidable.len()` loop with `swap_remove` -/
 def assignUndecidable (eps100 : K) (pts : Array (V2 K)) :
     Nat → Nat → Array Nat → SegFacet K → SegFacet K → Array Nat × SegFacet K × SegFacet K
@@ -48,14 +51,22 @@ def assignUndecidable (eps100 : K) (pts : Array (V2 K)) :
     if i ≥ und.size then (und, f1, f2) else
     let u := und[i]?.getD 0
     if f1.canBeSeenBy eps100 u pts then
-      assignUndecidable eps100 pts fuel i ((und.set! i (und.back?.getD 0)).pop) { f1 with visible := f1.visible ++ [u] } f2
+      assignUndecidable eps100 pts fuel i ((und.set! i (und.back?.getD 0)).pop) (f1.pushVis u) f2
     else if f2.canBeSeenBy eps100 u pts then
-      assignUndecidable eps100 pts fuel i ((und.set! i (und.back?.getD 0)).pop) f1 { f2 with visible := f2.visible ++ [u] }
+      assignUndecidable eps100 pts fuel i ((und.set! i (und.back?.getD 0)).pop) f1 (f2.pushVis u)
     else assignUndecidable eps100 pts fuel (i + 1) und f1 f2
 
 structure HullState (K : Type) where
   segs : Array (SegFacet K)
   und : Array Nat
+
+/-- body of the `for visible_point in segments[removed_facet].visible_points` loop of `attach_and_push_facets2` -/
+def assignStep (eps100 : K) (pts : Array (V2 K)) (point : Nat) (acc : SegFacet K × SegFacet K) (v : Nat) :
+    SegFacet K × SegFacet K :=
+  if v = point then acc
+  else if acc.1.canBeSeenBy eps100 v pts then (acc.1.pushVis v, acc.2)
+  else if acc.2.canBeSeenBy eps100 v pts then (acc.1, acc.2.pushVis v)
+  else acc
 
 /-- `attach_and_push_facets2` -/
 def attach (eps100 : K) (pts : Array (V2 K)) (st : HullState K) (prevF nextF point removed : Nat) : HullState K :=
@@ -63,42 +74,42 @@ def attach (eps100 : K) (pts : Array (V2 K)) (st : HullState K) (prevF nextF poi
   let id2 := id1 + 1
   let prevPt := (st.segs[prevF]?.map (·.p1)).getD 0
   let nextPt := (st.segs[nextF]?.map (·.p0)).getD 0
-  let f1 := SegFacet.new prevPt point prevF id2 pts
-  let f2 := SegFacet.new point nextPt id1 nextF pts
-  let segs := st.segs.modify prevF (fun f => { f with next := id1 })
-  let segs := segs.modify nextF (fun f => { f with prev := id2 })
+  let segs := (st.segs.modify prevF (fun f => { f with next := id1 })).modify nextF (fun f => { f with prev := id2 })
   let vis := (segs[removed]?.map (·.visible)).getD []
-  let (f1, f2) := vis.foldl (fun (acc : SegFacet K × SegFacet K) v =>
-    if v = point then acc
-    else if acc.1.canBeSeenBy eps100 v pts then ({ acc.1 with visible := acc.1.visible ++ [v] }, acc.2)
-    else if acc.2.canBeSeenBy eps100 v pts then (acc.1, { acc.2 with visible := acc.2.visible ++ [v] })
-    else acc) (f1, f2)
-  let (und, f1, f2) := assignUndecidable eps100 pts (st.und.size + 1) 0 st.und f1 f2
-  { segs := (segs.push f1).push f2, und := und }
+  let fs := vis.foldl (assignStep eps100 pts point)
+    (SegFacet.new prevPt point prevF id2 pts, SegFacet.new point nextPt id1 nextF pts)
+  let r := assignUndecidable eps100 pts (st.und.size + 1) 0 st.und fs.1 fs.2
+  { segs := (segs.push r.2.1).push r.2.2, und := r.1 }
+
+/-- body of the `for dir in direction.iter()` loop of `get_initial_polyline` (`acc.2` = the `break` flag) -/
+def pickP2Step (negMax : K) (pts : Array (V2 K)) (p1 : Nat) (acc : Nat × Bool) (dir : V2 K) : Nat × Bool :=
+  if acc.2 then acc else
+  let p2 := (indexedSupportPointId negMax dir pts (List.range pts.size)).getD 0
+  let d := (ptAt pts p2).sub (ptAt pts p1)
+  (p2, !(neq d.normSq 0))
+
+/-- body of the `for i in 0..points.len()` attribution loop of `get_initial_polyline` -/
+def initStep (eps100 : K) (pts : Array (V2 K)) (p1 p2 : Nat) (acc : SegFacet K × SegFacet K × Array Nat) (i : Nat) :
+    SegFacet K × SegFacet K × Array Nat :=
+  if i = p1 ∨ i = p2 then acc
+  else if acc.1.canBeSeenBy eps100 i pts then (acc.1.pushVis i, acc.2.1, acc.2.2)
+  else if acc.2.1.canBeSeenBy eps100 i pts then (acc.1, acc.2.1.pushVis i, acc.2.2)
+  else (acc.1, acc.2.1, acc.2.2.push i)
+
+/-- the three fallback directions `[-x, -y, y]` -/
+def initDirs : List (V2 K) := [⟨-1, -0⟩, ⟨-0, -1⟩, ⟨0, 1⟩]
 
 /-- `get_initial_polyline`; `none` = the `assert!`s fail (fewer than 2 points / all coincident) -/
 def initialPolyline (negMax eps100 : K) (pts : Array (V2 K)) : Option (HullState K) :=
   if pts.size < 2 then none else
-  let all := List.range pts.size
-  match indexedSupportPointId negMax ⟨1, 0⟩ pts all with
+  match indexedSupportPointId negMax ⟨1, 0⟩ pts (List.range pts.size) with
   | none => none
   | some p1 =>
-    let dirs : List (V2 K) := [⟨-1, -0⟩, ⟨-0, -1⟩, ⟨0, 1⟩]
-    let p2 := dirs.foldl (fun (acc : Nat × Bool) dir =>
-      if acc.2 then acc else
-      let p2 := (indexedSupportPointId negMax dir pts all).getD 0
-      let d := (ptAt pts p2).sub (ptAt pts p1)
-      (p2, !(neq d.normSq 0))) (p1, false)
-    if p1 = p2.1 then none else
-    let p2 := p2.1
-    let f1 := SegFacet.new p1 p2 1 1 pts
-    let f2 := SegFacet.new p2 p1 0 0 pts
-    let (f1, f2, und) := all.foldl (fun (acc : SegFacet K × SegFacet K × Array Nat) i =>
-      if i = p1 ∨ i = p2 then acc
-      else if acc.1.canBeSeenBy eps100 i pts then ({ acc.1 with visible := acc.1.visible ++ [i] }, acc.2.1, acc.2.2)
-      else if acc.2.1.canBeSeenBy eps100 i pts then (acc.1, { acc.2.1 with visible := acc.2.1.visible ++ [i] }, acc.2.2)
-      else (acc.1, acc.2.1, acc.2.2.push i)) (f1, f2, #[])
-    some { segs := #[f1, f2], und := und }
+    let p2 := (initDirs.foldl (pickP2Step negMax pts p1) (p1, false)).1
+    if p1 = p2 then none else
+    let r := (List.range pts.size).foldl (initStep eps100 pts p1 p2)
+      (SegFacet.new p1 p2 1 1 pts, SegFacet.new p2 p1 0 0 pts, #[])
+    some { segs := #[r.1, r.2.1], und := r.2.2 }
 
 /-- main loop `while i != segments.len()` -/
 def hullLoop (negMax eps100 : K) (pts : Array (V2 K)) : Nat → Nat → HullState K → HullState K
